@@ -13,9 +13,13 @@ class C03(Prop):
                   "produces exactly doc_toks d, the parser builds exactly tree_of d with no error, printing gives back render d, items() of every "
                   "paragraph equal content d (names in file order, duplicates kept, values = lines joined by LF without indentation and colon "
                   "whitespace); get/get_all/keys/contains_key are the list lookups on items() for every tree; Paragraph::from_str returns the first "
-                  "paragraph; C03_reject: a line that is not a field, continuation, comment or blank line, inserted at any line boundary of ANY text, "
+                  "paragraph; C03_reject / C03_reject_last: a line that does not start with space, tab or '#' and either cannot start a field name or "
+                  "contains no colon (RejectP.bad_line), inserted at any line boundary of ANY text - also as the last line without line end - "
                   "makes the strict reader return Err (lexer line-locality + a parser invariant: a bad token pattern at a line start is either "
-                  "reported or still ahead). The deb822-reject stream replays the clause on the implementation.")
+                  "reported or still ahead); other malformed lines (text between the name and the colon, an indented line with no field before "
+                  "it) are characterised by C03_image_complete: every text the strict reader accepts is the rendering of an error-free layout "
+                  "(XGrammar), and C03_image_accept: each such layout is read back exactly. The deb822-reject stream replays the rejection "
+                  "clause on the implementation.")
     level_note = "Model: src/lex.rs, src/common.rs, fn parse and the accessors of src/lossless.rs; specification: coq/model/Grammar.v (render, wf_doc, content)."
     rule = ("deb822-doc: random inhabitants of Grammar.doc (all layout knobs; text rendered by the generator and re-rendered by the extracted "
             "Grammar.render, wf checked by the extracted wf_doc), implementation compared with content/spec lookups; deb822-reject: a bad line "
